@@ -20,7 +20,9 @@ PROP = 'C13'
 META = {
     'extractors': ['graph', 'pyjoins'],
     'technique': ('Lean 4 proof (stable insertion sort: permutation + lexicographic sortedness + stability for every key list; '
-                  'multiset symmetry of the two sides of a link table; add/remove/accessor algebra) + differential correspondence on histories'),
+                  'multiset symmetry of the two sides of a link table; add/remove/accessor algebra) + TRANSLATION of joins.py '
+                  '(doSort, getID, _applyOrderBy, the performJoin / add / remove / __get__ / wrapper methods) into a deep embedding, proved '
+                  'equal to the hand model by symbolic execution + differential correspondence on histories'),
     'level_text': ('Theorems C13_*: for every stored relation (hence after every history) the one-to-many accessors return exactly '
                    'the rows whose key is the owner, in the declared ordering (doSort proved a stable lexicographic sort for any key '
                    'list); many-to-many accessors are symmetric with multiplicity; add/remove move exactly the addressed pair on both '
@@ -32,7 +34,10 @@ META = {
              '(schema, history prefix); non-trivial = some accessor returned a non-empty result'),
     'trusted': ['the link-table statements (_SO_intermediateInsert/Delete/Join templates and the way SORelatedJoin.add/remove/performJoin call them) '
                 'are read from the AST into Extracted/Graph.lean; related/addLink/removeLink interpret the extracted (column, value) lists',
-                'Model/Joins.lean mirrors doSort, SingleJoin and MultipleJoin by hand (tied by the correspondence run)',
+                'Model/Joins.lean mirrors doSort, SingleJoin and MultipleJoin by hand; vlib/extractors/pyjoins.py translates the Python '
+                'functions on every run and C13_translated_*_eq_model prove them equal to that model (interface assumptions: header of '
+                'Model/JoinsX.lean); SOSQLRelatedJoin.performJoin, _OneToManySelectWrapper.create, _dbNameToPythonName and the '
+                'constructors stay hand-modelled / assumed (tied by the correspondence run)',
                 'SQL ORDER BY is specified as "some sorted permutation" (ties unspecified); SQLite is observed, not verified'],
     'modelled': ['SQLite (row order without ORDER BY = rowid order; NULLS FIRST ascending)', 'CPython list.sort (stable, reverse keeps ties in order)'],
     'assumptions': ['orderBy items are attribute names with optional "-" (no SQL expressions)', 'ids are integers; objects are not per-connection instances'],
